@@ -5,6 +5,18 @@ COMMON_NOTE = ("Trusted base: Lean 4.33 kernel; axioms ⊆ {propext, Classical.c
                "generated tables (harness/gen_tables.py). ")
 
 CLAIMED = {
+    "C20": {
+        "text": "Theorems (Lean, unbounded): range_reader_refines_file — for every seek/read program, object size and start position the "
+                "S3 range reader yields the positions, delivered byte ranges and errors of an ordinary file; ranges_in_bounds — every ranged "
+                "GET is non-empty and inside the object; retry_masks_transient / permanent_fast_fail / nonretryable_fast_fail / "
+                "retry_exhausted / attempts_bounded for every failure sequence and retry budget; listing_agrees — S3 listing under dir+'/' "
+                "equals the local directory listing for every file set (string-level proof on '/'-joined keys). Correspondence: S3RangeFile, "
+                "retry_with_backoff and list_files vs the model on enumerated programs / attempt sequences / twin-backend traces each run.",
+        "design_ref": "§6 C20",
+        "note": "S3 is replaced by harness/fakes3.py (strong consistency, atomic PUT, exact ranged GET = the assumed contract); "
+                "CPython BufferedReader observed, not proved; directory existence of emptied local directories is outside the contract.",
+        "technique": "Lean 4 refinement theorem (range reader vs file spec) + retry-loop theorems + listing theorem; twin-backend correspondence",
+    },
     "C12": {
         "text": "Theorems (Lean, unbounded): build_is_sql — the compute expression built per condition keeps a row iff the SQL 3VL reference is "
                 "TRUE, for every operator, literal, value set (NULLs included) and row value (NULL/NaN/value); conj_is_sql for any number of "
